@@ -326,6 +326,8 @@ namespace hs
         p.set("slot", (long long)r.below(3));
         p.set("slot2", (long long)r.below(3));
         p.set("end", (long long)r.below(4));
+        if (has(sut, "stack.") && r.chance(1, profile == "C06" ? 3 : 8))
+            p.set("raii", 1); // markers are memory_stack_raii_unwind objects
 
         bool small_blocks = r.chance(1, 2);
         draw_params(r, p, sut, "", small_blocks);
